@@ -51,8 +51,15 @@ type RunResult struct {
 	Commits    int            `json:"commits"`
 	Aborts     int            `json:"aborts"`
 	Ops        int            `json:"ops"`
-	Touched    [][]string     `json:"touched,omitempty"` // per write tx of task T1: distinct (site,key) pairs (C07 enumeration)
+	Attempts   []AttemptInfo  `json:"attempts,omitempty"` // RecordKeys: per executed body: touched (site,key) pairs and expected events (C07 enumeration)
 	Log        []string       `json:"log,omitempty"`
+}
+
+type AttemptInfo struct {
+	Tx      string   `json:"tx"`
+	Touched []string `json:"touched"`
+	Events  []Ev     `json:"events"`
+	Done    bool     `json:"done"`
 }
 
 type btxState struct {
@@ -705,13 +712,13 @@ func (r *Run) body(tr *txRun, ctx boltz.MutateContext) (err error) {
 		if r.active == a {
 			r.active = nil
 		}
-		if r.opt.RecordKeys && tr.task.Name == "T1" {
+		if r.opt.RecordKeys {
 			var ks []string
 			for k := range a.touched {
 				ks = append(ks, k)
 			}
 			sort.Strings(ks)
-			r.res.Touched = append(r.res.Touched, ks)
+			r.res.Attempts = append(r.res.Attempts, AttemptInfo{Tx: tr.id, Touched: ks, Events: append([]Ev(nil), a.events...), Done: a.done})
 		}
 		r.mu.Unlock()
 	}()
